@@ -173,7 +173,19 @@ func RunSafety(r sim.Src, mons []*sim.Mon, keepLog bool, sh Shape) *sim.World {
 		TimePerBlock: []time.Duration{time.Second, 15 * time.Second}[r.Intn("tpb", 2)],
 		TsIncrement:  1_000_000, Epoch: epoch0,
 	}
+	if r.Intn("saltedsigs", 2) == 1 {
+		cfg.SaltedSigs = true // signing twice gives two different valid signatures, as with the reference ECDSA
+	}
+	if amev >= 0 && r.Intn("predata", 2) == 1 {
+		cfg.PreDataTxOnly = true // NeoX-like shares: valid for every pre-block of the height with these transactions
+	}
 	w := sim.NewWorld(cfg, r, byz, watch, mons, keepLog)
+	if cfg.PreDataTxOnly {
+		w.Stat("predata_tx_only")
+	}
+	if cfg.SaltedSigs {
+		w.Stat("salted_signatures")
+	}
 	w.FaultBudget = budget
 	heights := 1 + r.Intn("heights", max(1, sh.MaxHeights))
 	if sh.MaxHeights == 0 {
